@@ -19,7 +19,8 @@ RULE = ('batches of seeded random points per class: exact poles/equator, norther
         '(gravity), scalar calls; every point goes through all relation monitors; non-trivial = '
         'not one of the special points the existing tests use (equator, poles, lat 55 lon 37); '
         'distinct = distinct points'
-        ' Round 3: class whole_numbers (int64 arrays, lists of ints, single int rows vs the same numbers as floats; whole-metre ECEF round trip); before every case each function is called on points of the case and the arrays it returns are overwritten by the caller.')
+        ' Round 3: class whole_numbers (int64 arrays, lists of ints, single int rows vs the same numbers as floats; whole-metre ECEF round trip); before every case each function is called on points of the case and the arrays it returns are overwritten by the caller.'
+        ' Round 4: metre displacements along the meridian for points 1..300 m from a pole, towards and past it (stacked and single calls), judged through ECEF.')
 ASSUMPTIONS = ['closed-form WGS-84 formulas re-typed from the standard; constants shared by value',
                'first-order claims decided by displacement ladders (1 km..1 m), residual <= K d^2 (1+tan^2 lat)/R']
 REQUIRED_OBS = ['near_pole_perturbations', 'returned_arrays_overwritten', 'integer_forms_compared', 'ecef_closed_form', 'roundtrip_ecef', 'roundtrip_lla', 'frame_partials',
